@@ -1,5 +1,5 @@
 (* C03 — a task resumes only when all it awaits is done; start order; exactly once per yield.
-   Statements only; proofs in proofs/ProgProofs.v, proofs/MachineC02.v and proofs/MachineSteps.v.
+   Statements only; proofs in proofs/ProgProofs.v, proofs/MachineC02.v, proofs/MachineSteps.v and proofs/MachineC02S.v.
    Proved: (1) the dependencies derived from a yielded structure are exactly its futures, in reverse
    written order for list/tuple structures (with the LIFO task stack: tasks first scheduled together
    start in the order written); (2) on the machine, for tree programs, the scheduler resumes a task
@@ -18,9 +18,18 @@
    finds its task uncomputed (C03_no_step_after_done_when_resumes_are_guarded), and that hypothesis
    holds for tree programs by the C01 invariant (C03_no_step_after_done_tree; pointwise service, no
    unwinding, one root computation from the initial state).
+   (5) [stree] programs = tree programs + synchronous calls of fresh tasks (proofs/MachineC01S.v,
+   proofs/MachineC02S.v; second half of the file): (2) again (C03_resumed_only_when_everything_awaited_is_done_stree);
+   the guard hypothesis of (4) holds for their runs (C03_stree_resumes_are_guarded), hence no step after done for
+   one stree computation from the initial state (C03_no_step_after_done_stree) and for a whole HISTORY of stree
+   (in particular tree) computations on one scheduler in which no computation unwinds and each computation that
+   is followed by another one finished (C03_no_step_after_done_stree_history; C03_stree_clean_history: such a
+   history exists).  The nested scheduler loops of synchronous calls never resume a suspended caller: they only
+   work on tasks at least as young as their wait_for root.
    NOT proved (correspondence, monitors and the watchdog only): that a yield IS eventually resumed
-   (liveness / termination), never-started for never-awaited tasks, no-step-after-done for non-tree
-   programs without the guard hypothesis and for tree programs after a history. *)
+   (liveness / termination), never-started for never-awaited tasks, no-step-after-done for programs outside
+   stree (stored handles, value() on existing futures) without the guard hypothesis, and after a computation
+   that was cut off by the fuel or by the runaway guard. *)
 From Asynq Require Import Machine Seq proofs.ProgProofs proofs.MachineC08 proofs.MachineC01 proofs.MachineC02
   proofs.MachineSteps.
 
